@@ -159,6 +159,7 @@ CHECKS = {
         "tests": [
             {"pkg": "leaderx", "run": "^TestC08_Pipeline$", "quick": 600, "thorough": 100000},
             {"pkg": "leaderx", "run": "^TestC08_Tracker$", "quick": 40000, "thorough": 10000000},
+            {"pkg": "e2ex", "run": "^TestC08_E2E$", "quick": 200, "thorough": 8000, "shards": {"quick": 8, "thorough": 16}},
         ],
         "floors": {"concurrent_writers": 0.005, "duplicate_ack": 0.05},
         "rule": "(a) a real RF=1 LeaderController (real WAL with 4 KiB..1 MiB segments, real Pebble) with 1-12 concurrent writer "
@@ -172,7 +173,7 @@ CHECKS = {
                 "offset order after the append; after every action commit<=head, commit monotone, commit == reference rule "
                 "(highest offset whose whole prefix is <= head and acked by >= rf/2 cursors), waiters fire once, in order, only "
                 "at/below commit. Non-trivial: (a) >=2 writers with >=2 writes; (b) a duplicate ack and acks out of "
-                "cross-follower order.",
+                "cross-follower order. Third generator (TestC08_E2E, e2ex): the real asynchronous client pipelines 5-60 puts (1-3 keys, 1-6 requests per batch, values from a few bytes to 60 KB so that batches close at different points) to a real standalone server through one write stream per shard: every put succeeds, per key the version ids grow in submission order and the modification count by exactly one, and the final value is the last one submitted.",
         "assumptions": ["(a) covers RF=1; multi-follower ack interleavings are covered by the tracker state machine (b)",
                         "a write that does not return within 60 s is inconclusive"],
     },
